@@ -228,6 +228,54 @@ def run_tlc(cases, wd, name="c01", jobs=12, module="InkSemTrace", envvar="SEM"):
     return res, [m for _, ms in outs for m in ms], True
 
 
+MC_FEATURES = {"print", "glue", "tags", "icond", "iseq", "set", "temp", "block_if", "choices", "fallback", "conds", "sticky",
+               "counts", "turns", "loops", "tunnels", "threads", "functions", "labels", "done", "nested"}
+
+
+def small_programs(seed, n, limit=60):
+    """programs of at most `limit` statements for the exhaustive design-level exploration"""
+    out, k = [], 0
+    while len(out) < n and k < 4000:
+        p = gen_ast.generate(seed * 50021 + k, MC_FEATURES, knots=2, size=0.5, focus=("bursts", "nested", None)[k % 3])
+        k += 1
+        if sum(len(b) for b in p["prog"]["bodies"]) <= limit and ("<- " in p["ink"] or "->->" in p["ink"] or "<>" in p["ink"]):
+            out.append(p)
+    return out
+
+
+def design_check(tier, seed, wd):
+    """spec/InkHostMC.tla: TLC explores every history of at most MaxCalls public calls over small programs and checks
+    the design-level invariants (look-ahead is invisible, flows are independent, save/load, reset, refused calls).  No
+    code is run; a violated invariant is a defect of the specification (tool error), not of the engine."""
+    from concurrent.futures import ThreadPoolExecutor
+    quick = tier == "quick"
+    progs = small_programs(seed, 4 if quick else 12)
+    calls = 4 if quick else 5
+    cfg = os.path.join(wd, "InkHostMC-%d.cfg" % calls)
+    with open(cfg, "w") as f:
+        f.write("SPECIFICATION Spec\nCONSTANT MaxCalls = %d\nVIEW hview\n" % calls)
+        for inv in ("LookAheadIsInvisible", "SwitchAwayAndBack", "OthersUntouched", "SaveLoadIdentity", "ResetIsInitial", "RefusedIsNoOp"):
+            f.write("INVARIANT %s\n" % inv)
+        f.write("CHECK_DEADLOCK FALSE\n")
+
+    def one(a):
+        i, p = a
+        path = os.path.join(wd, "mcprog-%d.ndjson" % i)
+        with open(path, "w") as f:
+            f.write(json.dumps(p["prog"]) + "\n")
+        res = lib.run_tlc("InkHostMC", cfg, wd, env_extra={"MCPROG": path}, workers=2, timeout=3000, xmx="4g", deque=False)
+        if not res["ok"]:
+            raise lib.ToolError("InkHostMC: a design-level invariant does not hold (or TLC failed) on program %d:\n%s\n%s" % (
+                p["seed"], "\n".join(l for l in res["out"].splitlines() if "nvariant" in l or "Error" in l)[:2000], p["ink"]))
+        return res
+    with ThreadPoolExecutor(6) as ex:
+        outs = list(ex.map(one, enumerate(progs)))
+    return dict(programs=len(progs), max_calls=calls, distinct_states=sum(r["distinct"] for r in outs),
+                states=sum(r["states"] for r in outs), exhaustive=True,
+                invariants=["LookAheadIsInvisible", "SwitchAwayAndBack", "OthersUntouched", "SaveLoadIdentity", "ResetIsInitial", "RefusedIsNoOp"],
+                sample_program=progs[0]["ink"] if progs else "")
+
+
 def readable(t):
     if isinstance(t, dict) and "lines" in t:
         return dict(status=t["status"],
@@ -319,13 +367,16 @@ def run(tier, seed, features=None, n=None, debug=False):
             print("VIOLATION property=C01 replay=%s" % rp)
             if debug:
                 print(json.dumps(payload, indent=1)[:6000])
+    design = design_check(tier, seed, wd)
+    states += design["distinct_states"]
+    trans += design["states"]
     turns = sum(len(c["turns"]) for c in all_cases)
     distinct = len(set(json.dumps([c["prog_id"], c["path"]]) for c in all_cases))
     sample = [dict(case=c["case"], path=c["path"], story=srcs[c["prog_id"]], turns=[readable(t) for t in c["turns"]])
               for c in all_cases[:2]]
     cov = dict(states=max(1, states), transitions=max(1, trans), traces_validated_against_impl=len(all_cases),
                evaluations=len(all_cases), distinct_nontrivial=distinct, turns_compared=turns, programs=len(progs),
-               lookahead_cases=look_cases, conts_compared=look_conts, save_documents_compared=look_saves,
+               lookahead_cases=look_cases, conts_compared=look_conts, save_documents_compared=look_saves, design_level=design,
                explore=skipped_total, samples=sample, features=sorted(feats),
                rule="generated programs (abstract syntax tree + rendered source) over the fragment named in `features`; "
                     "every choice path to the exploration depth, the maximal ones compared; a case is one (program, path); "
@@ -336,6 +387,8 @@ def run(tier, seed, features=None, n=None, debug=False):
                         "the system under test: a disagreement may be a compiler or a runtime defect",
                         "list values, floats, externals, variable observers and random sequences are outside this check "
                         "(C03, C07, C12 decide those)"])
+    lib.log("[C01] design level (InkHostMC): %d programs, every history of <= %d calls, %d distinct states, invariants hold" % (
+        design["programs"], design["max_calls"], design["distinct_states"]))
     lib.log("[C01] programs=%d cases=%d turns=%d states=%d mismatches=%d %s explore=%s wall=%.1fs" % (
         len(progs), len(all_cases), turns, states, nviol, json.dumps(per_fp), {k: v for k, v in skipped_total.items() if isinstance(v, int)},
         time.time() - t0))
